@@ -4,6 +4,7 @@ import (
 	"bytes"
 	"fmt"
 	"reflect"
+	"regexp"
 	"runtime"
 	"sync"
 	"sync/atomic"
@@ -48,6 +49,30 @@ type c17Job struct {
 	v    interface{}
 	tmpl interface{}
 	cte  bool
+	// respell: the unmarshal step reads the marshaled CTE document with every key written in a spelling that only matches its
+	// field after case/underscore normalisation, a different spelling per goroutine (flat struct jobs only)
+	respell bool
+}
+
+var c17KeyRe = regexp.MustCompile(`"([A-Za-z0-9_]+)" = `)
+
+// c17Respell rewrites the keys of a flat struct's CTE document: letters in alternating case (phase g), underscores doubled.
+func c17Respell(doc []byte, g int) []byte {
+	return c17KeyRe.ReplaceAllFunc(doc, func(m []byte) []byte {
+		name := m[1 : len(m)-4]
+		var out []byte
+		for i, ch := range name {
+			switch {
+			case ch == '_':
+				out = append(out, '_', '_')
+			case (i+g)%2 == 0:
+				out = append(out, bytes.ToUpper([]byte{ch})...)
+			default:
+				out = append(out, bytes.ToLower([]byte{ch})...)
+			}
+		}
+		return append(append([]byte{'"'}, out...), []byte(`" = `)...)
+	})
 }
 
 type c17Result struct {
@@ -93,7 +118,13 @@ func errS(e error) string {
 }
 
 // c17Do performs marshal + unmarshal for one job in the given mode.
-func c17Do(mode int, j c17Job, cfg *configuration.Configuration, isess *iterator.Session, bsess *builder.Session) (r c17Result) {
+func c17Do(mode int, j c17Job, cfg *configuration.Configuration, isess *iterator.Session, bsess *builder.Session, g int) (r c17Result) {
+	readDoc := func(doc []byte) []byte {
+		if j.respell && g >= 0 {
+			return c17Respell(doc, g)
+		}
+		return doc
+	}
 	defer func() {
 		if p := recover(); p != nil {
 			r.panic = fmt.Sprint(p)
@@ -111,7 +142,7 @@ func c17Do(mode int, j c17Job, cfg *configuration.Configuration, isess *iterator
 		doc, err := m.MarshalToDocument(j.v)
 		r.doc, r.merr = doc, errS(err)
 		if err == nil {
-			out, err := u.UnmarshalFromDocument(doc, j.tmpl)
+			out, err := u.UnmarshalFromDocument(readDoc(doc), j.tmpl)
 			r.out, r.uerr = out, errS(err)
 		}
 	case 1: // shared sessions, own codecs
@@ -135,7 +166,7 @@ func c17Do(mode int, j c17Job, cfg *configuration.Configuration, isess *iterator
 		r.doc = buf.Bytes()
 		if r.merr == "" {
 			b := bsess.NewBuilderFor(j.tmpl)
-			err := dec.DecodeDocument(r.doc, rules.NewRules(b, cfg))
+			err := dec.DecodeDocument(readDoc(r.doc), rules.NewRules(b, cfg))
 			r.uerr = errS(err)
 			if err == nil {
 				r.out = b.GetBuiltObject()
@@ -153,7 +184,7 @@ func c17Do(mode int, j c17Job, cfg *configuration.Configuration, isess *iterator
 		if err == nil {
 			var out interface{}
 			if j.cte {
-				out, err = ce.UnmarshalFromCTEDocument(doc, j.tmpl, cfg)
+				out, err = ce.UnmarshalFromCTEDocument(readDoc(doc), j.tmpl, cfg)
 			} else {
 				out, err = ce.UnmarshalFromCBEDocument(doc, j.tmpl, cfg)
 			}
@@ -192,6 +223,30 @@ func runC17(c *fw.Ctx, idx int) {
 	if c.Rng.Intn(4) == 0 {
 		jobs = append(jobs, c17Job{v: make(chan int), tmpl: nil, cte: false}) // unsupported type raced too
 	}
+	if c.Rng.Intn(2) == 0 {
+		// a flat struct whose document keys are re-spelled differently by every goroutine (case and underscores)
+		var sf []reflect.StructField
+		perm := c.Rng.Perm(len(gen.FieldNames))
+		for i := 0; i < 2+c.Rng.Intn(4); i++ {
+			sf = append(sf, reflect.StructField{Name: gen.FieldNames[perm[i]] + salt + "F", Type: []reflect.Type{gen.TInt64, gen.TString, gen.TBool, gen.TFloat64}[c.Rng.Intn(4)]})
+		}
+		t := reflect.StructOf(sf)
+		v := reflect.New(t).Elem()
+		for i := 0; i < v.NumField(); i++ {
+			switch v.Field(i).Kind() {
+			case reflect.Int64:
+				v.Field(i).SetInt(int64(1 + c.Rng.Intn(1000)))
+			case reflect.String:
+				v.Field(i).SetString("s" + gen.TextValue(c.Rng, 6, true))
+			case reflect.Bool:
+				v.Field(i).SetBool(true)
+			default:
+				v.Field(i).SetFloat(float64(1+c.Rng.Intn(100)) / 4)
+			}
+		}
+		jobs = append(jobs, c17Job{v: v.Interface(), tmpl: reflect.Zero(t).Interface(), cte: true, respell: true})
+		c.Inc("jobs.respelled-keys")
+	}
 	if len(jobs) == 0 {
 		return
 	}
@@ -227,7 +282,7 @@ func runC17(c *fw.Ctx, idx int) {
 			res := make([]c17Result, len(jobs))
 			for k := range jobs {
 				kk := (k + g) % len(jobs)
-				res[kk] = c17Do(mode, jobs[kk], cfg, isess, bsess)
+				res[kk] = c17Do(mode, jobs[kk], cfg, isess, bsess, g)
 			}
 			results[g] = res
 		}(g)
@@ -254,7 +309,7 @@ func runC17(c *fw.Ctx, idx int) {
 	c.Eval()
 	// sequential reference on fresh instances
 	for k, j := range jobs {
-		want := c17Do(0, j, configuration.New(), nil, nil)
+		want := c17Do(0, j, configuration.New(), nil, nil, -1)
 		for g := 0; g < G; g++ {
 			c.Inc("calls_compared")
 			if why := c17Same(results[g][k], want, j.cte); why != "" {
